@@ -99,6 +99,11 @@ void checkModel(const std::function<bool(NifFile&)>& make, const std::string& so
 		// tag for the recorded finding about bone/bone-data pairing (see known_findings.json)
 		bool holes = hasEmptyBoneSlot(n);
 		auto holeTag = [&](const std::string& cls) { return cls + (holes && (cls == "bones" || cls == "bone" || cls == "globalToSkin" || cls == "calcGlobalToSkin") ? "+empty-bone-slot" : ""); };
+		// tag for the recorded finding about strip-stored partitions (GetShapePartitions triangulates them in the live model)
+		bool stripParts = false;
+		for (uint32_t bi = 0; bi < n.GetHeader().GetNumBlocks(); bi++)
+			if (auto spb = n.GetHeader().GetBlock<NiSkinPartition>(bi))
+				for (auto& pp : spb->partitions) stripParts |= pp.numStrips != 0;
 		R_phase("battery0");
 		// Some read-only queries cache derived state lazily (e.g. GetShapePartitions triangulates strip partitions), which is
 		// not an effect of saving: the baseline is the second run of the battery.
@@ -119,7 +124,7 @@ void checkModel(const std::function<bool(NifFile&)>& make, const std::string& so
 			S[k] = saveTraced(n, raw, tr);
 			C[k] = canonOfSave(tr, S[k], idmap, k == 0, indexStrings);
 			R_phase("battery");
-			B[k] = runBattery(n, true, !saveFirst);   // save-first passes: only queries that leave the model alone between the saves
+			B[k] = runBattery(n, true, true);   // also in the save-first passes: saves interleaved with read-only queries are part of the statement
 			R_stat("blocks_saved", (long)tr.blocks.size());
 		}
 		for (int k = 1; k < 3; k++) {
@@ -129,7 +134,7 @@ void checkModel(const std::function<bool(NifFile&)>& make, const std::string& so
 				if (C[0][i] != C[k][i]) {
 					std::string t0 = C[0][i].substr(0, C[0][i].find(':')), tk = C[k][i].substr(0, C[k][i].find(':'));
 					std::string ty = t0.substr(t0.find(' ') + 1);
-					site = vclass + "/" + ty;
+					site = vclass + "/" + ty + (saveFirst && stripParts && ty == "NiSkinPartition" ? "+strip-partitions-triangulated-by-query" : "");
 					size_t d = 0;
 					while (d < C[0][i].size() && d < C[k][i].size() && C[0][i][d] == C[k][i][d]) d++;
 					detail = fmt("block %zu: save 1 '%s' vs save %d '%s', canonical dumps differ at char %zu (%s vs %s)", i, t0.c_str(), k + 1, tk.c_str(), d,
@@ -141,7 +146,7 @@ void checkModel(const std::function<bool(NifFile&)>& make, const std::string& so
 		}
 		for (int k = 1; k < 3; k++)
 			if (B[k].full != B[0].full) {
-				R_viol(std::string("query-after-resave-") + mn + (saveFirst ? "-before-any-query" : ""), vclass + "/" + diffClass(B[0].full, B[k].full), source + fmt(": queries after save 1 vs after save %d: ", k + 1) + firstDiff(B[0].full, B[k].full));
+				R_viol(std::string("query-after-resave-") + mn + (saveFirst ? "-before-any-query" : ""), vclass + "/" + diffClass(B[0].full, B[k].full) + (saveFirst && stripParts && diffClass(B[0].full, B[k].full) == "sseCompatible" ? "+strip-partitions-triangulated-by-query" : ""), source + fmt(": queries after save 1 vs after save %d: ", k + 1) + firstDiff(B[0].full, B[k].full));
 				break;
 			}
 		if (saveFirst) {}
@@ -277,7 +282,7 @@ void run(size_t idx) {
 	if (idx >= l.nApi) {
 		auto& w = witnesses()[idx - l.nApi];
 		R_caseDesc("witness:" + w.name);
-		checkModel([&](NifFile& n) { return loadNif(n, w.bytes) == 0; }, "witness:" + w.name, "witness:" + w.name);
+		checkModel([&](NifFile& n) { return loadNif(n, w.bytes) == 0; }, "witness:" + w.name, "witness:" + w.name, w.name.find("save_first") != std::string::npos);
 		return;
 	}
 	{
@@ -293,6 +298,11 @@ void run(size_t idx) {
 				if (!m.ok) return false;
 				desc = m.desc;
 				n.CopyFrom(*m.nif);
+				// the same model as another exporter would have stored it: partition triangles with their corners in any rotation,
+				// partition vertex maps in any order (the library's own rebuild normalises both)
+				Rng tr(mix(seed, 0x7A));
+				if (idx % 4 == 1 && rotatePartitionTriangles(n, tr) > 0) { desc += " [partition triangles rotated]"; R_stat("models_with_rotated_partition_triangles"); }
+				if (idx % 4 == 3 && permutePartitionVertexMaps(n, tr) > 0) { desc += " [partition vertex maps permuted]"; R_stat("models_with_permuted_partition_vertex_maps"); }
 				return true;
 			},
 			fmt("api:%llu:%zu", (unsigned long long)seed, idx), fmt("api:%llu", (unsigned long long)seed), true);
@@ -302,8 +312,8 @@ void run(size_t idx) {
 }
 
 MonReg reg({"C02", "exploration",
-			"inputs as C01 (52 real files, float-mutated variants, one synthesised file per block type x version x seed, API-built in-memory models incl. skin/partitions/segments, models after random API edit sequences incl. detached sub-graphs (half of them queried before the edits), reversed block order). "
-			"Edited and API-built models get two further passes in which the first save precedes every query (between those saves only queries that leave the model alone). "
+			"inputs as C01 (52 real files, float-mutated variants, one synthesised file per block type x version x seed, API-built in-memory models incl. skin/partitions/segments (a quarter each with rotated partition triangles / permuted partition vertex maps, as other exporters store them), models after random API edit sequences incl. detached sub-graphs (half of them queried before the edits), reversed block order). "
+			"Edited and API-built models get two further passes in which the first save precedes every query (the full battery, partition query included, runs between the saves). "
 			"Per input and per option set {raw, default}: one NifFile object is saved three times with the hook trace installed; oracle 1: the canonical dumps of save 1, 2, 3 (per block: "
 			"type, payload with reference fields replaced by the identity of the target object and string indices by their text, in file order) are equal; oracle 2: the ~60-call query "
 			"battery answers identically after save 1, 2, 3; oracle 3: the logical part of the battery (geometry, skin, textures, segments, partitions, transforms; no block indices or "
